@@ -1322,7 +1322,10 @@ def unpack_collection(spec: ValueSpec) -> Optional[Expression]:
         )
     elif ensure_generic_mapping(spec, args, collections.defaultdict):
         spec.builder.ensure_module_imported(collections)
-        default_type = type_name(args[1] if args else None)
+        default_factory_type = args[1] if args else None
+        while is_type_alias_type(default_factory_type):
+            default_factory_type = default_factory_type.__value__
+        default_type = type_name(default_factory_type)
         return (
             f"collections.defaultdict({default_type}, "
             f"{{{inner_expr(0, 'key')}: "
